@@ -94,6 +94,7 @@ impl Grid {
     /// one case: `f` returns Err(description) when the property's statement does not hold for this input
     pub fn case<F: FnOnce() -> Result<(), String> + std::panic::UnwindSafe>(&mut self, id: &str, f: F) {
         if let Some(only) = &self.only { if only != id { return; } }
+        else if self.fails >= 10 { self.skipped += 1; return; }   // the verdict is settled; failing cases are often the slow ones (time-outs)
         else if self.stride > 1 {
             let family: String = id.chars().filter(|c| !c.is_ascii_digit()).collect();
             let n = self.seen.entry(family).or_insert(0);
